@@ -27,6 +27,7 @@ var generators = map[string]genFn{
 	"healthrace": genHealthRace,
 	"acklosttakeover": genAckLostTakeover,
 	"lease": genLease,
+	"restart": genRestart,
 }
 
 type scenOut struct {
